@@ -11,8 +11,6 @@ for pid in all_ids:
     if pid not in props.REGISTRY:
         continue
     P = props.REGISTRY[pid]()
-    if P.module and not os.path.exists(os.path.join(ROOT, "coq", "Properties", P.module + ".v")):
-        continue
     claimed.add(pid)
     checks.append({
         "property_id": pid,
